@@ -245,12 +245,19 @@ def arcBy (rx ry rot theta0 theta1 : α) (cs : RPath α) : RPath α :=
     if pl.exact then cs2 else arcTo G rx ry rot pl.large pl.sweep pl.endp cs2
   else arcTo G rx ry rot pl.large pl.sweep pl.endp cs
 
-/-- `Path.Close` (path.go:545) -/
+def headIsClose : RPath α → Bool
+  | .close _ :: _ => true
+  | _ => false
+
+/-- `Path.Close` (path.go:549) -/
 def close (cs : RPath α) : RPath α :=
   match cs with
   | [] => []
   | .close _ :: _ => cs
-  | .move _ :: rest => rest
+  | .move _ :: rest =>
+    -- a subpath without segments: the MoveTo is removed only when the path is otherwise empty or the
+    -- previous subpath is closed; otherwise Close is a no-op and the pen stays at the MoveTo
+    if rest.isEmpty || headIsClose rest then rest else cs
   | .line s :: rest =>
     let e := startPos G cs
     if G.ptEq s e then .close s :: rest
@@ -276,13 +283,14 @@ def repairClose (e : Pt α) : List (Cmd α) → List (Cmd α)
   | c :: t => c :: repairClose e t
 
 /-- `p.Append(q)` (path.go:284) for one argument -/
+def dropTrailingMove : RPath α → RPath α
+  | .move _ :: rest => rest
+  | cs => cs
+
+/-- a non-empty `q` starts with its own MoveTo, which supersedes a trailing MoveTo of the receiver -/
 def append (p q : RPath α) : RPath α :=
   let p0 := if isEmpty p then [] else p
-  if isEmpty q then p0 else q ++ p0
-
-def headIsClose : RPath α → Bool
-  | .close _ :: _ => true
-  | _ => false
+  if isEmpty q then p0 else q ++ dropTrailingMove p0
 
 /-- `p.Join(q)` (path.go:297).  Faithful when the first record of `q` has four values (it is a
 MoveTo in every well-formed path). -/
